@@ -338,6 +338,76 @@ func vfLabelled(id string) int {
 	return n
 }
 
+// vfStacks returns the symbolic stacks of the labelled goroutines that are inside go-zero code.
+func vfStacks(id string) []string {
+	var buf bytes.Buffer
+	p := pprof.Lookup("goroutine")
+	if p == nil || p.WriteTo(&buf, 1) != nil {
+		return nil
+	}
+	want := `"verif_case":"` + id + `"`
+	var res []string
+	for _, blk := range strings.Split(buf.String(), "\n\n") {
+		if !strings.Contains(blk, want) || strings.Contains(blk, "vfStacks") {
+			continue
+		}
+		var sb strings.Builder
+		if i := strings.Index(blk, " @"); i > 0 {
+			sb.WriteString(strings.TrimSpace(blk[:i]) + "x\n")
+		}
+		for _, ln := range strings.Split(blk, "\n") {
+			if f := strings.Fields(ln); strings.HasPrefix(ln, "#") && len(f) >= 3 && !strings.HasPrefix(f[1], "labels") {
+				name := f[2]
+				if i := strings.Index(name, "+0x"); i >= 0 {
+					name = name[:i]
+				}
+				sb.WriteString(name + "\n")
+			}
+		}
+		if strings.Contains(sb.String(), "(*PeriodicalExecutor)") {
+			res = append(res, sb.String())
+		}
+	}
+	sort.Strings(res)
+	return res
+}
+
+// vfDeadlocked: in three dumps a second apart the goroutines of the case that are
+// inside the executor are identical, at least one is parked in Add/Wait/Flush, no
+// background flusher exists and no Execute callback is running. Decided by state.
+func vfDeadlocked(id string, e *vfEnv) []string {
+	prev := ""
+	var calls []string
+	for d := 0; d < 3; d++ {
+		if d > 0 {
+			time.Sleep(time.Second)
+		}
+		for _, x := range e.snapshot() {
+			if x.Exit == 0 {
+				return nil
+			}
+		}
+		st := vfStacks(id)
+		calls = nil
+		for _, g := range st {
+			if strings.Contains(g, "backgroundFlush") {
+				return nil
+			}
+			for _, api := range []string{"Add", "Wait", "Flush"} {
+				if strings.Contains(g, "(*PeriodicalExecutor)."+api+"\n") {
+					calls = append(calls, api+"\n"+g)
+				}
+			}
+		}
+		fp := strings.Join(st, "|")
+		if len(calls) == 0 || (d > 0 && fp != prev) {
+			return nil
+		}
+		prev = fp
+	}
+	return calls
+}
+
 func vfGone(id string) bool {
 	return vfWaitUntil(func() bool { return vfLabelled(id) == 0 }, vfWatchdog)
 }
@@ -727,7 +797,25 @@ func vfRunConcurrent(c *kit.Case, vc *kit.VClock) {
 			}
 		}()
 	}
-	ok := vfWaitChan(vfAsync(wg.Wait), vfWatchdog)
+	prodDone := vfAsync(wg.Wait)
+	ok := vfWaitChan(prodDone, 3*time.Second)
+	if !ok {
+		// never decided by elapsed time: either the state proves that a call cannot return, or we keep waiting
+		for start := time.Now(); !ok && time.Since(start) < vfWatchdog; {
+			if calls := vfDeadlocked(c.ID, e); len(calls) > 0 {
+				api := calls[0][:strings.Index(calls[0], "\n")]
+				c.Viol("C11/stuck/"+api+"/no-flusher-alive",
+					api+" can never return: parked with a stable stack, no background flusher goroutine exists, no callback is running",
+					map[string]any{"case": desc, "parked": calls, "executions": e.execLines()})
+				go e.pe.Add(&vfTask{id: 1 << 20}) // rescue: restarts a flusher (leaks nothing we still look at)
+				close(stop)
+				<-driver
+				vfWaitChan(prodDone, vfWatchdog)
+				return
+			}
+			ok = vfWaitChan(prodDone, 2*time.Second)
+		}
+	}
 	close(stop)
 	<-driver
 	if !ok {
